@@ -59,10 +59,49 @@ decreasing_by simp; omega
 /-- `ServiceInfo.properties` computed from `self.text` -/
 def decodeLib (text : Bytes) : Props := decodeLoop text []
 
-/-- what `ServiceInfo(..., properties=ps).properties` returns: the caller's own dictionary when no `str`
-was involved (info.py:388-395), the lazily decoded text otherwise -/
-def propertiesObs (containsStr : Bool) (ps : Props) (text : Bytes) : Props :=
-  if containsStr then decodeLib text else ps
+/-! ### the caller's dictionary: `str` and `bytes` keys and values (info.py:368-395)
+
+A `str` is represented by its UTF-8 encoding — what `key.encode('utf-8')` / `str(value).encode('utf-8')` produce
+(CPython's encoder is trusted) — but keeps its *type*: whether a `str` was involved decides what `.properties` returns. -/
+
+inductive PyVal where
+  | str (utf8 : Bytes)
+  | bytes (b : Bytes)
+  deriving DecidableEq, Repr
+
+/-- the bytes the loop works with: `key.encode('utf-8')` for a `str`, the object itself for `bytes` -/
+def PyVal.enc : PyVal → Bytes
+  | .str u => u
+  | .bytes b => b
+
+def PyVal.isStr : PyVal → Bool
+  | .str _ => true
+  | .bytes _ => false
+
+/-- a properties dictionary as given to `ServiceInfo(properties=…)`, in insertion order; `None` = `none` -/
+abbrev PyDict := List (PyVal × Option PyVal)
+
+def entryHasStr (e : PyVal × Option PyVal) : Bool :=
+  e.1.isStr || (match e.2 with | some v => v.isStr | none => false)
+
+/-- `properties_contain_str` after the loop: set by `isinstance(key, str)` and by `not isinstance(value, bytes)` -/
+def containsStr (d : PyDict) : Bool := d.any entryHasStr
+
+/-- the `(key, value)` byte strings of the loop -/
+def coerce (d : PyDict) : Props := d.map (fun e => (e.1.enc, e.2.map PyVal.enc))
+
+/-- a decoded dictionary (`Dict[bytes, Optional[bytes]]`) seen as a Python dictionary -/
+def asBytesDict (ps : Props) : PyDict := ps.map (fun e => (PyVal.bytes e.1, e.2.map PyVal.bytes))
+
+/-- `ServiceInfo(..., properties=d)`: `.text`, and what `.properties` returns — the caller's own dictionary when no `str`
+was involved (`self._properties = properties`, info.py:388-395), the lazily decoded text otherwise -/
+def setProperties (d : PyDict) : Except PyExc (Bytes × PyDict) :=
+  match encode (coerce d) with
+  | .error e => .error e
+  | .ok text => .ok (text, if containsStr d then asBytesDict (decodeLib text) else d)
+
+/-- "keys and values as bytes": no `str` anywhere in an observed dictionary -/
+def allBytes (d : PyDict) : Bool := !containsStr d
 
 /-- the library "reads an empty value back as no value" -/
 def normVal : Option Bytes → Option Bytes := libVal
